@@ -182,18 +182,22 @@ func genC19World(src *choice.Src) *World {
 		// at the same time; now and then a third build next to them
 		dir := filepath.Dir(w.Out)
 		n := 1 + src.Draw("concurrent.n", 2)
+		sameOut := src.Chance("concurrent.sameout", 1, 3)
 		for i := 0; i < n; i++ {
 			p := &World{OutKind: "file", Out: filepath.Join(dir, []string{"stub.go", "zz_second.go"}[i]), Patterns: append([]string{}, w.Patterns...),
 				MapSeed: seed64(src, "peer.mapseed"), ListSeed: seed64(src, "peer.listseed"), RandSeed: seed64(src, "peer.randseed"),
 				Clock: w.Clock + int64(src.Draw("peer.clock", 3)), Pid: w.Pid + 1 + i + src.Draw("peer.pid", 50), Host: w.Host,
 				Version: w.Version, Commit: w.Commit, Date: w.Date, Dirty: w.Dirty, Env: w.Env, NoGo: w.NoGo, Class: "self:peer"}
-			if i == 0 {
+			if i == 0 && sameOut {
+				// self-compile started twice at the same time: both write internal/gontainer/gontainer.go
+				p.Out, p.PreOut = w.Out, w.PreOut
+			} else if i == 0 {
 				p.Flags = []string{"--stub"}
 			}
 			if src.Bool("peer.quiet") {
 				p.Flags = append(p.Flags, "--quiet")
 			}
-			if src.Bool("peer.preout") {
+			if src.Bool("peer.preout") && p.Out != w.Out {
 				p.PreOut = &InFile{Path: p.Out, Content: "package gontainer\n\n// an earlier generation\n", Mode: 0644}
 			}
 			w.Peers = append(w.Peers, p)
